@@ -986,3 +986,42 @@ func VerifC01_MatchArray() {
 	zzverif.Assert(got == want, "match on arrays: another case than the first matching one ran, or a binding is wrong")
 	zzverif.Reach("match-array")
 }
+
+// float comparisons over every pair of float64 values, NaN, infinities and
+// signed zeros included: the six operators are the IEEE-754 ones (every ordered
+// comparison with NaN is false, != is true), also against an int operand
+func VerifC01_FloatCompare() {
+	op := []ast.BinOp{ast.Eq, ast.Ne, ast.Lt, ast.Le, ast.Gt, ast.Ge}[zzverif.Choice("op", 6)]
+	f := zzverif.Float64("f")
+	var e ast.Expr
+	var x, y float64
+	switch zzverif.Choice("other operand", 3) {
+	case 0:
+		g := zzverif.Float64("g")
+		e, x, y = bin(op, lit(f), lit(g)), f, g
+	case 1:
+		a := int64(zzverif.IntRange("a", -3, 3))
+		e, x, y = bin(op, lit(f), lit(a)), f, float64(a)
+	default:
+		a := int64(zzverif.IntRange("a", -3, 3))
+		e, x, y = bin(op, lit(a), lit(f)), float64(a), f
+	}
+	got, ok := run(ret(e))
+	var want bool
+	switch op {
+	case ast.Eq:
+		want = x == y
+	case ast.Ne:
+		want = x != y
+	case ast.Lt:
+		want = x < y
+	case ast.Le:
+		want = x <= y
+	case ast.Gt:
+		want = x > y
+	default:
+		want = x >= y
+	}
+	zzverif.Assert(ok && got == interface{}(want), "float comparison "+opNames[op]+" differs from IEEE-754 (NaN, infinities, signed zeros included)")
+	zzverif.Reach("floatcmp")
+}
